@@ -193,10 +193,14 @@ func (w *wdsSys) apply(f []string) (out string) {
 			TypeUrl: v3.AddressType, ResourceNamesSubscribe: sub, ResourceNamesUnsubscribe: unsub,
 			ResponseNonce: resolveNonce(w.proxy, "WDS", f[4]),
 		}
-		if f[3] == "held" {
+		if f[3] == "held" || f[3] == "heldx" {
 			// a conformant (re)connecting client reports everything it holds, with the versions it was given
+			// (heldx: with versions the server never produced, e.g. those of another build of the control plane)
 			req.InitialResourceVersions = map[string]string{}
 			for n, vs := range w.heldVer {
+				if f[3] == "heldx" {
+					vs = "x-" + vs
+				}
 				req.InitialResourceVersions[n] = vs
 			}
 		}
@@ -266,8 +270,22 @@ func genWds(seed uint64, n int, outp string) {
 		out.Line("widx", encIdx(idx))
 		subs := []string{}
 		first := func() {
+			// what a reconnecting client presents: the versions it holds (1/6: versions this server never
+			// produced), and in a third of the cases the nonce it retained from the dead stream
+			init, nk := "held", "empty"
+			if r.Chance(1, 6) {
+				init = "heldx"
+			}
+			if r.Chance(1, 3) {
+				nk = "stale"
+			}
 			if wild {
-				out.Line("wreq", "*", "-", "held", "empty")
+				if r.Chance(1, 2) {
+					// the legacy wildcard: no resource_names_subscribe at all
+					out.Line("wreq", "-", "-", init, nk)
+				} else {
+					out.Line("wreq", "*", "-", init, nk)
+				}
 			} else {
 				subs = wire.Subset(r, wdsNames, 1, 2)
 				if len(subs) == 0 {
@@ -278,7 +296,7 @@ func genWds(seed uint64, n int, outp string) {
 					s2[0] = wdsAlias[s2[0]] // subscribe by address
 				}
 				// on-demand clients subscribe and unsubscribe "*" at once
-				out.Line("wreq", wire.EncList(append([]string{"*"}, s2...)), "*", "held", "empty")
+				out.Line("wreq", wire.EncList(append([]string{"*"}, s2...)), "*", init, nk)
 			}
 		}
 		first()
@@ -333,11 +351,13 @@ func oracleWds(in string) []string {
 	subscribed := sets.New[string]()
 	dirty := sets.New[string]() // names changed in the index and not yet announced by a push
 	var prevIdx map[string]int
+	fresh := true // no request yet on the current stream
 	for _, f := range wire.ReadLines(in) {
 		if f[0] == "case" {
 			flush()
 			verdict, open, idx = "", true, 0
 			wild, subscribed, dirty, prevIdx = false, sets.New[string](), sets.New[string](), map[string]int{}
+			fresh = true
 		}
 		idx++
 		if w.apply(f) == "crash" && verdict == "" {
@@ -363,9 +383,12 @@ func oracleWds(in string) []string {
 			continue
 		case "wreq":
 			sub, unsub := wire.DecList(f[1]), wire.DecList(f[2])
-			isFirst := f[4] == "empty" && len(sub) > 0 && sub[0] == "*"
+			// the first request of a stream, whatever its shape ("*", the legacy empty subscription, with or
+			// without a retained nonce)
+			isFirst := fresh
+			fresh = false
 			if isFirst {
-				wild = len(unsub) == 0
+				wild = (len(sub) == 0 || sets.New(sub...).Contains("*")) && !sets.New(unsub...).Contains("*")
 				subscribed = sets.New[string]()
 				dirty = sets.New[string]() // a first request is answered from the whole index
 			}
@@ -392,6 +415,7 @@ func oracleWds(in string) []string {
 				dirty.Delete(n)
 			}
 		case "wreconnect":
+			fresh = true
 			continue
 		}
 		if verdict != "" {
